@@ -33,6 +33,11 @@ def gen_problem(rng, t):
         if lab["meshsize"] <= 0:
             lab["meshsize"] = rng.choice([1.0, 1.5, 0.75])
         lab["magdir"] = rng.choice([0.0, 90.0, 37.0, -120.0])
+        # a direction of magnetisation given as an expression of the position (evaluated by the solver's Lua at the element
+        # centroid); such problems are outside the assembly tie (the model takes a number per label) and are decided by the
+        # hook residual and the SI oracle, which evaluates the same expression itself
+        if not harmonic and lab["block"] >= 0 and p.blockprops[lab["block"]].get("H_c") and rng.random() < 0.15:
+            lab["magdirfctn"] = rng.choice(["theta", "theta+90", "x*10+y*5", "R*20-30", "z*15"])
         # the number of turns is a property of series-connected regions; in a parallel circuit every region is one turn
         # (mixing wound and solid conducting regions in ONE parallel circuit is outside the generated domain: Static2D
         #  excludes wound regions from the conductance integral but still applies -sigma*dV in them; see DESIGN.md)
@@ -266,6 +271,8 @@ def main(argv):
             stats["units"][p.units] = stats["units"].get(p.units, 0) + 1
             stats["magnets"] += sum(1 for m in p.blockprops if m.get("H_c"))
             stats["laminated"] += sum(1 for m in p.blockprops if "LamType" in m)
+            stats["functional_magnet_directions"] = stats.get("functional_magnet_directions", 0) + sum(
+                1 for l in p.labels if l.get("magdirfctn") and l["block"] >= 0 and p.blockprops[l["block"]].get("H_c"))
             for l in p.labels:
                 if l["circ"] >= 0:
                     stats["circuits"]["series" if p.circprops[l["circ"]]["type"] == 1 else "parallel"] += 1
@@ -329,6 +336,12 @@ def main(argv):
             if ax and not p.harmonic and t % 2 == 0:
                 pa = copy.deepcopy(p)
                 pa.ptype = "axi"
+                if len(pa.labels) > 1 and rng.random() < 0.34:
+                    # an EXTERNAL (Kelvin-transformed) region: [extZo] [extRo] [extRi] and a block label flagged external
+                    W_ = max(n_["x"] for n_ in pa.nodes)
+                    pa.ext = (rng.choice([0.0, 1.5]), rng.choice([2.0 * W_, 20.0]), rng.choice([W_, 8.0]))
+                    rng.choice(pa.labels[1:])["ext"] = 1
+                    stats["external_region_problems"] = stats.get("external_region_problems", 0) + 1
                 runa = Run(build, work, "p%d_axi" % t, pa)
                 if runa.mesh() == 0:
                     dump = os.path.join(runa.dir, "sys_harness.txt")
